@@ -2939,3 +2939,93 @@ bus_connection_request_headers (DBusConnection  *connection,
 
   d->want_headers |= headers;
 }
+
+#ifdef FREEDESKTOP_DBUS_VERIF
+/* Verification hook H1 (off unless built with -DFREEDESKTOP_DBUS_VERIF): dump per-connection
+ * counters and pending replies, and check counters against the structures they count and
+ * against the configured limits, at a quiescent point. */
+#include <stdio.h>
+#include <stdlib.h>
+
+void bus_verif_connections_state (BusConnections *connections, FILE *out);
+
+#define VERIF_FAIL(...) do { fprintf (stderr, "VERIF-INVARIANT " __VA_ARGS__); fputc ('\n', stderr); abort (); } while (0)
+
+void
+bus_verif_connections_state (BusConnections *connections,
+                             FILE           *out)
+{
+  DBusList *link;
+  BusContext *context = connections->context;
+  int n;
+
+  n = _dbus_list_get_length (&connections->completed);
+  if (n != connections->n_completed)
+    VERIF_FAIL ("n_completed %d but completed list has %d", connections->n_completed, n);
+  if (connections->n_completed > bus_context_get_max_completed_connections (context))
+    VERIF_FAIL ("n_completed %d exceeds max_completed_connections", connections->n_completed);
+  n = _dbus_list_get_length (&connections->incomplete);
+  if (n != connections->n_incomplete)
+    VERIF_FAIL ("n_incomplete %d but incomplete list has %d", connections->n_incomplete, n);
+  if (connections->n_incomplete > bus_context_get_max_incomplete_connections (context))
+    VERIF_FAIL ("n_incomplete %d exceeds max_incomplete_connections", connections->n_incomplete);
+
+  if (out != NULL)
+    fprintf (out, "T completed=%d incomplete=%d\n", connections->n_completed, connections->n_incomplete);
+
+  for (link = _dbus_list_get_first_link (&connections->completed);
+       link != NULL;
+       link = _dbus_list_get_next_link (&connections->completed, link))
+    {
+      DBusConnection *connection = link->data;
+      BusConnectionData *d = BUS_CONNECTION_DATA (connection);
+      int n_pending = 0;
+      DBusList *plink;
+
+      if (d == NULL)
+        continue;
+
+      n = _dbus_list_get_length (&d->services_owned);
+      if (n != d->n_services_owned)
+        VERIF_FAIL ("n_services_owned %d but list has %d", d->n_services_owned, n);
+      if (d->n_services_owned > bus_context_get_max_services_per_connection (context))
+        VERIF_FAIL ("n_services_owned %d exceeds max_names_per_connection", d->n_services_owned);
+      n = _dbus_list_get_length (&d->match_rules);
+      if (n != d->n_match_rules)
+        VERIF_FAIL ("n_match_rules %d but list has %d", d->n_match_rules, n);
+      if (d->n_match_rules > bus_context_get_max_match_rules_per_connection (context))
+        VERIF_FAIL ("n_match_rules %d exceeds max_match_rules_per_connection", d->n_match_rules);
+      if (d->link_in_monitors != NULL && d->n_services_owned != 0)
+        VERIF_FAIL ("a monitor owns %d names", d->n_services_owned);
+
+      for (plink = bus_expire_list_get_first_link (connections->pending_replies);
+           plink != NULL;
+           plink = bus_expire_list_get_next_link (connections->pending_replies, plink))
+        {
+          BusPendingReply *pending = plink->data;
+          if (pending->will_get_reply == connection)
+            n_pending++;
+        }
+      if (n_pending > bus_context_get_max_replies_per_connection (context))
+        VERIF_FAIL ("%d pending replies exceed max_replies_per_connection", n_pending);
+
+      if (out != NULL)
+        fprintf (out, "C %s names=%d rules=%d pending=%d monitor=%d\n",
+                 d->name ? d->name : "-", d->n_services_owned, d->n_match_rules, n_pending,
+                 d->link_in_monitors != NULL);
+    }
+
+  if (out != NULL)
+    {
+      for (link = bus_expire_list_get_first_link (connections->pending_replies);
+           link != NULL;
+           link = bus_expire_list_get_next_link (connections->pending_replies, link))
+        {
+          BusPendingReply *pending = link->data;
+          const char *a = bus_connection_get_name (pending->will_get_reply);
+          const char *b = bus_connection_get_name (pending->will_send_reply);
+          fprintf (out, "P %s %s %u\n", a ? a : "?", b ? b : "?", (unsigned) pending->reply_serial);
+        }
+    }
+}
+#endif /* FREEDESKTOP_DBUS_VERIF */
